@@ -6,6 +6,7 @@ from ..core import AnalysisError, u, walk_local, enclosing_stmt
 from ..lib import (construct, std_facts, def_of, facts_at, calls_of_node,
                    returns_of, in_subtree, kwarg, copy_kind, facts_imply)
 from ..resolve import store_accesses
+from .common import allowed_stores, instance_state
 
 PCX = 'config.ParseContext'
 
@@ -15,6 +16,12 @@ def run(ctx):
   c = ctx.cls(PCX)
   ccon = 'gin/config.py::ParseContext'
   # ---- C19.per-file
+  instance_state(ctx, 'C19.per-file', PCX, {'_import_manager', '_imports', '_symbol_table', '_symbol_source', '_dynamic_registration'},
+                 'a per-context cache of resolved names goes stale when configuring a method re-registers its class (existing references '
+                 'are re-initialised through get_configurable and must see the new registration)')
+  allowed_stores(ctx, 'C19.own-imports', {PCX + '.get_configurable': {'_REGISTRY'}, PCX + '._resolve_selector': set(),
+                                          PCX + '.process_import': set()},
+                 'dynamic names resolve only through this file\'s own symbol table')
   init = c.methods['__init__']
   tables = {}
   for n in walk_local(init.node):
@@ -130,7 +137,11 @@ def run(ctx):
   rec = [cc for cc in walk_local(rg.node) if isinstance(cc, ast.Call) and prog.resolve_call(rg, cc) == rg.qual]
   ctx.check(bool(rec), 'C19.exact-object', construct(rg), 'registering a method registers its class too', 'the parent class of a method is no longer registered', rg.loc(), instance='parent-class')
 
-  # ---- C19.unique-names
+  import_aliases(ctx, 'C19.unique-names')
+
+
+def import_aliases(ctx, rule):
+  prog = ctx.prog
   im = ctx.cls('config.ImportManager')
   ai = im.methods['add_import']
   g5, facts5 = std_facts(prog, ai)
@@ -143,12 +154,12 @@ def run(ctx):
   ren = [n for n in g5.live_nodes() if n.kind == 'stmt' and isinstance(n.ast, ast.Assign) and u(n.ast.targets[0]) == 'statement'
          and u(n.ast.value).replace(' ', '') == 'statement._replace(alias=unique_name)']
   ok = ok and bool(ren) and all(g5.reaches(r.id, a.id) for r in ren for a in adds)
-  ctx.check(ok, 'C19.unique-names', construct(ai), 'a colliding bound name is re-aliased to a unique one before the name is reserved',
+  ctx.check(ok, rule, construct(ai), 'a colliding bound name is re-aliased to a unique one before the name is reserved',
             'import re-aliasing no longer derives a unique bound name against the set of names it then adds to', ai.loc(), instance='re-alias')
   ms = [n for n in g5.live_nodes() if n.kind == 'stmt' and isinstance(n.ast, ast.Assign) and u(n.ast.targets[0]) == 'self.module_selectors[statement.module]']
   ok = bool(ms) and all(g5.reaches(r.id, m.id) for r in ren for m in ms)
-  ctx.check(ok, 'C19.unique-names', construct(ai), 'the selector table records the (possibly re-aliased) name every emitted selector is built from',
+  ctx.check(ok, rule, construct(ai), 'the selector table records the (possibly re-aliased) name every emitted selector is built from',
             'module selectors are recorded before re-aliasing', ai.loc(), instance='selector-table')
   un = ctx.func('config._uniquify_name')
   ok = any(isinstance(n, ast.While) and u(n.test).replace(' ', '') == 'unique_nameinexisting_names' for n in walk_local(un.node))
-  ctx.check(ok, 'C19.unique-names', construct(un), 'candidates are tried until one is not taken', '_uniquify_name no longer loops until the name is free', un.loc(), instance='loop')
+  ctx.check(ok, rule, construct(un), 'candidates are tried until one is not taken', '_uniquify_name no longer loops until the name is free', un.loc(), instance='loop')
